@@ -22,7 +22,11 @@
   * row locks: `locks t row = some {tx, acquiredAt}`, `txLocks tx` = the key list of
     `tx_locks` (duplicates kept: a re-lock pushes the key again);  `tx_insert` locks the row it
     inserts (dcf916e8; the result of that `try_lock` is discarded with `let _ =`, so a conflict
-    would leave the new row unlocked and the insert goes on);
+    would leave the new row unlocked and the insert goes on);  `try_lock` overwrites an EXPIRED
+    lock of another transaction but leaves the key in the old holder's `tx_locks` list, so
+    `release tx` = "for every key listed under `tx`: remove the lock iff it still belongs to `tx`"
+    (the ownership check is what protects the new holder); `releaseNoOwnerCheck` /
+    `stepNoOwnerCheck` are that loop without the check (NOT the code; regression witness only);
   * `apply_undo_entry` (c322e794) re-adds / swaps hash and b-tree entries only for indexes that
     exist at rollback time; the undo of an insert removes its entries unconditionally;
   * the code before those two fixes is kept as `txInsertOld`, `applyUndoTOld`, `rollbackOld`,
@@ -671,5 +675,73 @@ def runOld (s : State) (ops : List Op) : State := ops.foldl (fun s op => (stepOl
 def runResOld (s : State) : List Op → List Res
   | [] => []
   | op :: ops => (stepOld s op).2 :: runResOld (stepOld s op).1 ops
+
+/-! ## `release` WITHOUT the ownership check (NOT the code; regression witness only)
+
+  `RowLockManager::release` with the loop body `if lock.tx_id == tx_id { locks.remove(&key) }`
+  "simplified" to `locks.remove(&key)`: every key recorded for the transaction is dropped, whoever
+  holds it now.  `try_lock` leaves a taken-over key in the OLD holder's `tx_locks` list, so this
+  variant deletes the new holder's live lock when the old holder ends.  Kept so that
+  `release_no_owner_check_witness` can show that `release_keeps_foreign_locks` tells the two apart. -/
+
+def releaseNoOwnerCheck (s : State) (tx : Nat) : State :=
+  { s with
+    locks := fun t i =>
+      match s.locks t i with
+      | some l => if (t, i) ∈ s.txLocks tx then none else some l
+      | none => none
+    txLocks := fun k => if k = tx then [] else s.txLocks k }
+
+def commitNoOwnerCheck (s : State) (tx : Nat) : State × Res :=
+  match gate s tx with
+  | some e => (s, .err e)
+  | none => (setTx (releaseNoOwnerCheck s tx) tx none, .ok)
+
+def rollbackNoOwnerCheck (s : State) (tx : Nat) : State × Res :=
+  match gate s tx with
+  | some e => (s, .err e)
+  | none =>
+    let log := match s.txs tx with | some x => x.undo | none => []
+    let r := log.reverse.foldl applyUndo (s, 0)
+    (setTx (releaseNoOwnerCheck r.1 tx) tx none, if r.2 = 0 then .ok else .err .rollbackFailed)
+
+def cleanupTxsNoOwnerCheck (s : State) : State × Res :=
+  let ids := (List.range s.nextTx).filter (txExpired s)
+  let s1 := ids.foldl releaseNoOwnerCheck s
+  ({ s1 with txs := fun k => if txExpired s k then none else s1.txs k }, .okN ids.length)
+
+def finishAutoNoOwnerCheck (p : State × Res) (tx : Nat) : State × Res :=
+  match p.2 with
+  | .err e => ((rollbackNoOwnerCheck p.1 tx).1, .err e)
+  | r => ((commitNoOwnerCheck p.1 tx).1, r)
+
+def stepNoOwnerCheck (s : State) (op : Op) : State × Res :=
+  match op with
+  | .commit tx => commitNoOwnerCheck s tx
+  | .rollback tx => rollbackNoOwnerCheck s tx
+  | .cleanupTxs => cleanupTxsNoOwnerCheck s
+  | .insert t vals =>
+    match s.tables t with
+    | none => (s, .err .tableNotFound)
+    | some T =>
+      if vals.length ≠ T.ncols then (s, .err .badInput)
+      else finishAutoNoOwnerCheck (txInsert (begin s).1 (begin s).2 t vals) (begin s).2
+  | .update t cond upd =>
+    match s.tables t with
+    | none => (s, .err .tableNotFound)
+    | some T =>
+      if upd.any (fun p => decide (p.1 ≥ T.ncols)) then (s, .err .columnNotFound)
+      else finishAutoNoOwnerCheck (txUpdate (begin s).1 (begin s).2 t cond upd) (begin s).2
+  | .delete t cond =>
+    match s.tables t with
+    | none => (s, .err .tableNotFound)
+    | some _ => finishAutoNoOwnerCheck (txDelete (begin s).1 (begin s).2 t cond) (begin s).2
+  | op => step s op
+
+def runNoOwnerCheck (s : State) (ops : List Op) : State := ops.foldl (fun s op => (stepNoOwnerCheck s op).1) s
+
+def runResNoOwnerCheck (s : State) : List Op → List Res
+  | [] => []
+  | op :: ops => (stepNoOwnerCheck s op).2 :: runResNoOwnerCheck (stepNoOwnerCheck s op).1 ops
 
 end Neumann.RelTx
